@@ -162,13 +162,16 @@ def windowFor (align : Bool) (period : Int) (fresh : Bool) (obs : List String) (
 def runPeriod (r : Report) (s : Section) : Report := Id.run do
   let quotaZ := kvInt s.cfg "quota" 1
   let periodZ := kvInt s.cfg "period" 1
-  let align := kvNat s.cfg "align" 0 == 1
+  -- the limiter is aligned iff the option list is not empty (`new_period_limit_fields`); `nopt` = its length
+  let nopt := kvNat s.cfg "nopt" (kvNat s.cfg "align" 0)
+  let align := (newPeriodLimit periodZ quotaZ "" (List.replicate nopt POpt.align)).align
   let quota := quotaZ.toNat
   let mut d : PDrv := {}
   let mut r := r
   if quotaZ ≤ 0 then r := r.addCover "p-sec-quota-nonpositive"
   if periodZ ≤ 0 then r := r.addCover "p-sec-period-nonpositive"
   if align then r := r.addCover "p-sec-align"
+  if nopt > 1 then r := r.addCover "p-sec-align-option-repeated"
   if align && kvInt s.cfg "tz" 0 ≠ 0 then r := r.addCover "p-sec-align-zone-offset"
   if kvNat s.cfg "nlim" 1 > 1 then r := r.addCover "p-sec-several-limiters"
   let npre := max 1 (kvNat s.cfg "npre" 1)
